@@ -300,13 +300,20 @@ Definition oracle_fault (inp obs : list N) : bool :=
     && spec_steps (cf_cap cf) [] ops so).
 
 (** * Zero-sized elements (family 2): shape and count ledger *)
-Fixpoint zst_steps (obs : list N) (n : nat) : bool :=
-  match n with
-  | 0 => match obs with [leaked] => true | _ => false end
-  | S n' =>
+(** per step: shape rules on the counts; the number of live elements never falls below
+    what the array owns (nothing is dropped while owned, nothing twice); the surplus
+    [live - len] - elements leaked so far - never shrinks, and grows only at a step with a
+    faulting iterator or a leaked drain; at the end (array dropped) exactly the surplus is
+    still alive *)
+Fixpoint zst_steps (surplus : N) (obs : list N) (ops : list hop) : bool :=
+  match ops with
+  | [] => match obs with [leaked] => (leaked =? surplus)%N | _ => false end
+  | o :: ops' =>
       match obs with
       | ok :: c :: r :: l :: live :: rest =>
-          (c * r =? l)%N && Bool.eqb (c =? 0)%N (r =? 0)%N && (live =? l)%N && zst_steps rest n'
+          (c * r =? l)%N && Bool.eqb (c =? 0)%N (r =? 0)%N && (l <=? live)%N
+          && (if fault_free_op o then (live - l =? surplus)%N else (surplus <=? live - l)%N)
+          && zst_steps (live - l) rest ops'
       | _ => false
       end
   end.
@@ -315,6 +322,5 @@ Definition oracle_zst (inp obs : list N) : bool :=
   match run_parser p_hist inp with
   | None => false
   | Some (cf, ops) =>
-      zst_steps obs (length ops)
-      && (if all_fault_free ops then (last obs 1 =? 0)%N else true)
+      zst_steps 0 obs ops
   end.
